@@ -580,6 +580,8 @@ def run(tier="quick", root="/repo", evidence_dir=None, quiet=False):
     rep.attempt(rule_index_maps, rep, repo)
     rep.attempt(rule_cube_exits, rep, repo)
     rep.attempt(rule_molecule_box, rep, repo)
+    from gridlint import logderiv
+    rep.attempt(logderiv.rule_log_derivative, rep, repo)
     rep.extra.update({"functions_in_scope": len(scope), "weight_schemes": keys, "source_digest": repo.digest(["cubic"])})
     return rep.finish(evidence_dir=evidence_dir, quiet=quiet)
 
